@@ -1,7 +1,9 @@
 import Driver.TrVal
+import Driver.Entry
 
 def main (args : List String) : IO UInt32 := do
   let stdin ← IO.getStdin
   match args with
   | ["trval"] => TrVal.main stdin
-  | _ => do IO.eprintln "usage: midriver <trval|...>"; return 2
+  | ["entry"] => EntryVal.main stdin
+  | _ => do IO.eprintln "usage: midriver <trval|entry|...>"; return 2
